@@ -143,6 +143,11 @@ Theorem dispatch_routes_agree d t r n :
   dyn_ok nc d -> is_fun nc n = true -> dout d (DCall t r n) = DRan (cur (d_sel d) t).
 Proof. intros H F. unfold BackendDispatch.dout. simpl. now rewrite fun_route_dyn. Qed.
 
+(* library code (`from . import backend as T; T.n(...)`) looks the name up on the manager module object on every use:
+   it is the manager-module route, in every state and mode *)
+Theorem library_route_is_manager_route d t n : dout d (DCall t RLib n) = dout d (DCall t RMgr n).
+Proof. reflexivity. Qed.
+
 (* at any position of any history without use_static_dispatch, through any route *)
 Theorem dispatch_follows_view d h1 t r n h2 :
   dyn_ok nc d -> no_static h1 -> is_fun nc n = true ->
@@ -271,6 +276,16 @@ Proof.
   - now destruct (descr_class D).
 Qed.
 
+(* the class route (BackendManager.<attr>) with the repaired descriptor: the attribute of the accessing thread's view *)
+Theorem class_attribute_follows_view d h1 t n h2 :
+  descr_class D = true -> dyn_ok nc d -> no_static h1 -> is_fun nc n = false -> is_attr nc n = true ->
+  nth (length h1) (dtrace d (h1 ++ DCall t RClass n :: h2)) DNone
+  = DVal (view (tls (d_sel d) t) (shared (d_sel d)) (events R c (d_sel d) (sel_ops h1)) t).
+Proof.
+  intros HD H Hn F A. destruct (attribute_follows_view d h1 t n h2 H Hn F A) as [_ [_ E]].
+  now rewrite HD in E.
+Qed.
+
 (* an attribute bound by name when the package was imported keeps the value of the import-time backend, whatever
    happens afterwards (tensorly.int64, float64, pi, e, inf, nan, index) *)
 Theorem top_attribute_import_time own0 h1 t n h2 :
@@ -370,6 +385,151 @@ Proof.
 Qed.
 
 End Init.
+
+(* ------------------------------------------------------------ re-binding under concurrency *)
+Section Rebind.
+Variable fresh : fname -> slot.
+
+(* WITHOUT the delattr: in every schedule, every look-up of every name by any other thread finds either the binding
+   from before the call or the new one ... *)
+Lemma rsched_old_or_fresh : forall names l cl0 cl,
+  (forall n, cl n = cl0 n \/ cl n = fresh n) ->
+  Forall (fun s => exists n, s = cl0 n \/ s = fresh n) (rsched cl (rprog false fresh names) l).
+Proof.
+  induction names as [|m names IH]; intros l cl0 cl Hcl.
+  - simpl. induction l as [|[[|] n] l IHl]; simpl; [constructor|exact IHl|].
+    constructor; [exists n; apply Hcl|exact IHl].
+  - revert cl Hcl. induction l as [|[[|] n] l IHl]; intros cl Hcl; [constructor| |].
+    + simpl. apply IH. intros k. simpl. destruct (Nat.eqb_spec k m) as [->|]; [now right|apply Hcl].
+    + simpl. constructor; [exists n; apply Hcl|]. apply (IHl cl Hcl).
+Qed.
+
+(* ... hence never a missing attribute *)
+Theorem rebind_no_window names l cl :
+  (forall n, cl n <> SAbsent) -> (forall n, fresh n <> SAbsent) ->
+  Forall (fun s => s <> SAbsent) (rsched cl (rprog false fresh names) l).
+Proof.
+  intros Hc Hf. pose proof (rsched_old_or_fresh names l cl cl (fun n => or_introl eq_refl)) as H.
+  rewrite Forall_forall in *. intros s Hs. destruct (H s Hs) as [n [->| ->]]; auto.
+Qed.
+
+End Rebind.
+
+(* WITH the delattr (the loop as written): a look-up of another thread between the two acts finds the name missing,
+   although it is bound before and after - through the manager module that is an AttributeError *)
+Lemma rebind_window_refuted :
+  let cl := fun _ : fname => SWrap in
+  rsched cl (rprog true (fun _ => SWrap) [0; 1]) [(false, 0); (true, 0); (false, 0); (false, 1); (true, 0); (false, 0)]
+  = [SWrap; SAbsent; SWrap; SWrap] /\
+  (forall nc s t D, eval_slot nc s t true D SAbsent 0 = VError) /\
+  rsched cl (rprog false (fun _ => SWrap) [0; 1]) [(false, 0); (true, 0); (false, 0); (false, 1); (true, 0); (false, 0)]
+  = [SWrap; SWrap; SWrap; SWrap].
+Proof. repeat split. Qed.
+
+(* ------------------------------------------------------------ register_backend_method *)
+Section Reg.
+Variables (R : rules) (H : hcfg) (c : cfg).
+
+(* registration touches neither the selection state nor any other name *)
+Lemma register_other_name s mt u n v cl m : m <> n -> register c s mt u n v cl m = mt cl m.
+Proof.
+  intros Hm. unfold register. destruct (Nat.eqb_spec m n); [congruence|]. now rewrite andb_false_r.
+Qed.
+
+(* a method registered by thread u is what the closure runs for EVERY thread whose current backend is of the class of
+   u's backend - at once, whatever thread-local selections are in force *)
+Theorem registered_same_class s mt u n v t :
+  name_of c (cur s t) = name_of c (cur s u) ->
+  which H c s (register c s mt u n v) t n = Some (cur s t, v).
+Proof.
+  intros E. unfold which, lookup, register. rewrite E, !Nat.eqb_refl. reflexivity.
+Qed.
+
+(* ... and for every thread on a backend of a SUBCLASS that does not define the name itself *)
+Theorem registered_inherited s mt u n v t :
+  name_of c (cur s t) <> name_of c (cur s u) ->
+  mt (name_of c (cur s t)) n = MInherit -> cparent H (name_of c (cur s t)) = Some (name_of c (cur s u)) ->
+  which H c s (register c s mt u n v) t n = Some (cur s t, v).
+Proof.
+  intros Hne Hi Hp. unfold which, lookup, register.
+  destruct (Nat.eqb_spec (name_of c (cur s t)) (name_of c (cur s u))); [contradiction|]. simpl.
+  rewrite Hi, Hp, !Nat.eqb_refl. reflexivity.
+Qed.
+
+(* threads on a backend of an unrelated class, or of a class with a definition of its own, are not affected; nor is any
+   other name for anybody *)
+Theorem registered_elsewhere_unchanged s mt u n v t :
+  name_of c (cur s t) <> name_of c (cur s u) ->
+  (mt (name_of c (cur s t)) n <> MInherit \/ cparent H (name_of c (cur s t)) <> Some (name_of c (cur s u))) ->
+  which H c s (register c s mt u n v) t n = which H c s mt t n.
+Proof.
+  intros Hne Hor. unfold which, lookup, register. f_equal.
+  destruct (Nat.eqb_spec (name_of c (cur s t)) (name_of c (cur s u))); [contradiction|]. simpl.
+  destruct (mt (name_of c (cur s t)) n) eqn:E; try reflexivity.
+  destruct (cparent H (name_of c (cur s t))) as [p|] eqn:P; [|reflexivity].
+  destruct (Nat.eqb_spec p (name_of c (cur s u))) as [->|]; [|reflexivity].
+  destruct Hor as [X|X]; congruence.
+Qed.
+
+Theorem registered_other_name s mt u n v t m : m <> n ->
+  which H c s (register c s mt u n v) t m = which H c s mt t m.
+Proof.
+  intros Hm. unfold which, lookup. rewrite register_other_name; [|assumption].
+  destruct (mt (name_of c (cur s t)) m); try reflexivity.
+  destruct (cparent H (name_of c (cur s t))); [|reflexivity]. now rewrite register_other_name.
+Qed.
+
+(* a backend whose class provides nothing under the name: the dispatched call raises AttributeError *)
+Theorem undefined_raises s mt t n : lookup H mt (name_of c (cur s t)) n = None -> which H c s mt t n = None.
+Proof. intros E. unfold which. now rewrite E. Qed.
+
+Notation rrun := (rrun R H c).
+Notation rtrace := (rtrace R H c).
+
+Lemma rrun_app x h1 h2 : rrun x (h1 ++ h2) = rrun (rrun x h1) h2.
+Proof. unfold rrun, BackendDispatch.rrun. apply fold_left_app. Qed.
+Lemma rtrace_app : forall h1 x h2, rtrace x (h1 ++ h2) = rtrace x h1 ++ rtrace (rrun x h1) h2.
+Proof. induction h1; intros; simpl; [reflexivity|]. now rewrite IHh1. Qed.
+Lemma rtrace_length : forall h x, length (rtrace x h) = length h.
+Proof. induction h; intros; simpl; auto. Qed.
+Lemma r_sel_run : forall h x, r_sel (rrun x h) = run R c (r_sel x) (rsel_ops h).
+Proof.
+  induction h as [|o h IH]; intros x; [reflexivity|].
+  change (rrun x (o :: h)) with (rrun (rnxt R H c x o) h). rewrite IH. destruct o; reflexivity.
+Qed.
+
+(* at ANY position of ANY history of selections, registrations and calls over any threads: the call is executed by the
+   caller's view (C17_view), with what the class of that object provides after the registrations so far *)
+Theorem registered_call_follows_view x h1 t n h2 :
+  let b := view (tls (r_sel x) t) (shared (r_sel x)) (events R c (r_sel x) (rsel_ops h1)) t in
+  nth (length h1) (rtrace x (h1 ++ RCall t n :: h2)) RNone
+  = RRan (option_map (pair b) (lookup H (r_mt (rrun x h1)) (name_of c b) n)).
+Proof.
+  intros b. rewrite rtrace_app, app_nth2; rewrite rtrace_length; [|lia]. rewrite Nat.sub_diag. simpl.
+  unfold BackendDispatch.rout. simpl. unfold which. rewrite r_sel_run.
+  change (cur (run R c (r_sel x) (rsel_ops h1)) t) with (cur (run R c (r_sel x) (rsel_ops h1)) t).
+  rewrite view_correct. reflexivity.
+Qed.
+
+End Reg.
+
+(* a name that is in neither _functions nor _attributes is not dispatched at all: registering it (on whatever class)
+   does not make it reachable through any route - AttributeError, in every history *)
+Theorem unlisted_name_not_dispatched (R : rules) (c : cfg) (D : drules) (nc : ncfg) own0 h1 t r n h2 :
+  is_fun nc n = false -> is_attr nc n = false ->
+  nth (length h1) (dtrace R c D nc (dinit nc own0) (h1 ++ DCall t r n :: h2)) DNone = DErr.
+Proof.
+  intros F A. rewrite dtrace_nth. unfold BackendDispatch.dout. cbn [dstep snd].
+  assert (Hc : forall h d, d_cls d n = SAbsent -> d_cls (drun R c D nc d h) n = SAbsent).
+  { induction h as [|o h IH]; intros d E; [exact E|].
+    change (drun R c D nc d (o :: h)) with (drun R c D nc (dnxt R c D nc d o) h). apply IH.
+    destruct o; simpl; try exact E; now rewrite F, A. }
+  assert (E : d_cls (drun R c D nc (dinit nc own0) h1) n = SAbsent).
+  { apply Hc. simpl. now rewrite F, A. }
+  assert (T : d_top (drun R c D nc (dinit nc own0) h1) n = None).
+  { rewrite d_top_run. simpl. destruct (top_bound nc n); [now rewrite F, A|reflexivity]. }
+  destruct r; unfold BackendDispatch.eval; rewrite ?T, E; reflexivity.
+Qed.
 
 (* ------------------------------------------------------------ threads that start late *)
 Section Fresh.
@@ -491,13 +651,26 @@ Lemma dispatch_nonvacuous :
   dtrace fixed_rules cfg0 tree_drules nc0 d0 hist0
   = [DNone; DNone; DSelObs ODone; DSelObs ODone;
      DRan (Obj 0); DRan (Named 1); DRan (Named 1); DRan (Obj 0); DRan (Named 0); DVal (Obj 0); DVal (Named 1);
-     DVal (Named 0); DErr;
+     DVal (Named 0); DVal (Named 1);
      DNone; DSelObs OReraised;
      DRan (Obj 0); DRan (Obj 0); DRan (Named 0); DRan (Named 0); DVal (Obj 0); DVal (Named 0);
      DNone; DRan (Named 0)].
 Proof.
   split; [apply dyn_init|]. split; [|vm_compute; reflexivity].
   intros t H. simpl in H. repeat (destruct H as [H|H]; [discriminate|]). exact H.
+Qed.
+
+(* the tree before /repo commit 0b04404: the same class-level access to a dispatched attribute (position 12 of hist0)
+   raised AttributeError; everything else is unchanged *)
+Lemma descriptor_before_0b04404 :
+  nth 12 (dtrace fixed_rules cfg0 drules_before_0b04404 nc0 d0 hist0) DNone = DErr /\
+  nth 12 (dtrace fixed_rules cfg0 tree_drules nc0 d0 hist0) DNone = DVal (Named 1) /\
+  (forall k, k <> 12 -> nth k (dtrace fixed_rules cfg0 drules_before_0b04404 nc0 d0 hist0) DNone
+                        = nth k (dtrace fixed_rules cfg0 tree_drules nc0 d0 hist0) DNone).
+Proof.
+  split; [vm_compute; reflexivity|]. split; [vm_compute; reflexivity|].
+  intros k Hk. do 23 (destruct k as [|k]; [try (vm_compute; reflexivity); exfalso; now apply Hk|]).
+  vm_compute. destruct k; reflexivity.
 Qed.
 
 (* mixed nesting: thread 1 enters a tensorly.backend context, inside it opens a tensorly.tenalg context that it
